@@ -174,7 +174,7 @@ func (x *Exec) invoke(s *State, f *Frame, cc *CallCtx, callee Value) (forks []*S
 			}
 		}
 		if spec, ok := x.Specs[target]; ok && !spec.Inline {
-			v := x.callContract(s, f, cc, target, spec)
+			v := x.callContract(s, f, cc, target, spec, fv)
 			setResult(v)
 			return nil, false
 		}
@@ -348,7 +348,7 @@ func (x *Exec) resumeDeferred(s *State) []*State {
 }
 
 // callContract applies a callee's contract at a call site.
-func (x *Exec) callContract(s *State, f *Frame, cc *CallCtx, target *ssa.Function, spec *FuncSpec) Value {
+func (x *Exec) callContract(s *State, f *Frame, cc *CallCtx, target *ssa.Function, spec *FuncSpec, fv *FuncVal) Value {
 	// pseudo frame for evaluating the callee's clauses over the arguments
 	pf := &Frame{Fn: target, Regs: map[ssa.Value]Value{}, Vars: map[string]Value{}, VarAddr: map[string]bool{}, Spec: spec}
 	for i, p := range target.Params {
@@ -357,6 +357,18 @@ func (x *Exec) callContract(s *State, f *Frame, cc *CallCtx, target *ssa.Functio
 		}
 	}
 	pf.EntryArgs = cc.Args
+	if fv != nil {
+		// a closure under contract: its clauses may mention captured variables
+		pf.Free = fv.Free
+		for i, fvv := range target.FreeVars {
+			if i < len(fv.Free) {
+				if pv, ok := fv.Free[i].(*PtrVal); ok && pv.Cell != nil {
+					pf.Vars[fvv.Name()] = pv
+					pf.VarAddr[fvv.Name()] = true
+				}
+			}
+		}
+	}
 	env := s.NewEnv(pf)
 	for _, c := range spec.Requires {
 		env.Side = nil
